@@ -38,6 +38,8 @@ var attrTemplates = []string{
 	"[a](b " + hA + hA + ")",                  // 21 two-byte title incl. the empty titles "" '' ()
 	"![&quot;" + hA + "&" + hA + "t;](x)",      // 22 character references in an image description
 	"<http://a/%2" + hA + hA + ">",            // 23 percent escape in an autolink
+	"> a <b\n> " + hA + "=\"d\">x</b>",         // 24 multi-line inline tag inside a block quote
+	"- <!-- a\n  " + hA + " -->",              // 25 multi-line comment inside a list item
 }
 
 func c10Input(kind, a int) []byte {
